@@ -778,4 +778,53 @@ theorem jstep_fail_quiet (s : Store) (j : Nat) (jc k pc st jc' r ev)
     | cases h)
 
 
+def KeysNodup (t : Table) : Prop := (t.map (·.1)).Nodup
+
+theorem erase_keys {t : Table} {k : Nat} (h : KeysNodup t) : KeysNodup (Table.erase t k) ∧ k ∉ (Table.erase t k).map (·.1) := by
+  constructor
+  · unfold KeysNodup Table.erase at *
+    exact (List.Nodup.sublist (List.Sublist.map _ List.filter_sublist) h)
+  · simp [Table.erase]
+
+theorem set_keys {t : Table} {k v : Nat} (h : KeysNodup t) : KeysNodup (Table.set t k v) := by
+  obtain ⟨h1, h2⟩ := erase_keys (k := k) h
+  unfold KeysNodup Table.set
+  simp only [List.map_cons, List.nodup_cons]
+  exact ⟨h2, h1⟩
+
+theorem applyAct_keys {t t' : Table} {a : JAct} (h : KeysNodup t) (ha : applyAct t a = some t') : KeysNodup t' := by
+  cases a with
+  | add k v => simp [applyAct] at ha; subst ha; exact set_keys h
+  | update k v =>
+    simp only [applyAct] at ha; split at ha
+    · simp at ha; subst ha; exact set_keys h
+    · cases ha
+  | delete k => simp [applyAct] at ha; subst ha; exact (erase_keys h).1
+
+theorem applyActs_keys {acts : List JAct} : ∀ {t t' : Table}, KeysNodup t → applyActs t acts = some t' → KeysNodup t' := by
+  induction acts with
+  | nil => intro t t' h ha; simp [applyActs] at ha; subst ha; exact h
+  | cons a as ih =>
+    intro t t' h ha
+    simp only [applyActs] at ha
+    split at ha
+    · rename_i t1 h1; exact ih (applyAct_keys h h1) ha
+    · cases ha
+
+/-- A replayed journal table never holds a key twice. -/
+theorem tableAt_keys (s : Store) (j : Nat) : ∀ (n : Nat) (t : Table), tableAt s j n = some t → KeysNodup t := by
+  intro n
+  induction n with
+  | zero => intro t h; simp [tableAt] at h; subst h; simp [KeysNodup]
+  | succ m ih =>
+    intro t h
+    simp only [tableAt] at h
+    split at h
+    · rename_i t0 h0
+      split at h
+      · exact applyActs_keys (ih t0 h0) h
+      · cases h
+    · cases h
+
+
 end Zed.Store
